@@ -243,8 +243,8 @@ pub fn def() -> PropertyDef {
 		assumptions: vec!["the Vec model is the specification (insertion order since last absence, latest value)"],
 		subs: vec![
 			sweep_sub("exhaustive", exhaustive, check_history),
-			prop_sub("random", 6_000, 400_000, random_history, check_history),
-			prop_sub("dense", 6_000, 400_000, dense_history, check_history),
+			prop_sub("random", 24_000, 400_000, random_history, check_history),
+			prop_sub("dense", 24_000, 400_000, dense_history, check_history),
 		],
 	}
 }
